@@ -671,6 +671,40 @@ def nontrivial(case):
     return case.split(" ")[0] not in ("null", "asnull", "dummy", "deq")
 
 
+def second_configuration(ctx, failures):
+    """the property quantifies over configurations: with hashable-value the `v == T::null()` of Option<T>::try_from goes
+    through the hand-written PartialEq of mod hashable_value instead of the derived one.  The same stream (all but the
+    `==` lines, whose answer legitimately depends on that feature for NaN) runs on that build; the model is the same."""
+    try:
+        exe = vlib.harness_build("fb")
+    except vlib.BuildError as e:
+        ctx.violation({"kind": "build-failure", "detail": str(e)[-3000:],
+                       "theorem_or_correspondence": "harness build (hashable-value) against /repo"}, no_input=True)
+        return
+    lines = [l for l in ctx.last_lines if l.split(" ")[0] != "deq"]
+    fa = dict(zip(ctx.last_lines, ctx.last_impl))
+    out = vlib.run_exe(exe, lines, ctx.work, "cases.fb.impl")
+    verdicts = batch_oracle(ctx, lines, out)
+    differ = 0
+    first = None
+    for c, o, v in zip(lines, out, verdicts):
+        if v:
+            failures.append((c, o, "with feature hashable-value: " + v))
+        elif o != fa[c]:
+            differ += 1
+            first = first or (c, o, fa[c])
+    ctx.cov["second_configuration"] = {"features": "all-types + hashable-value + thread-safe", "cases": len(lines),
+                                       "outputs_differing_from_first_configuration": differ}
+    ctx.cov["evaluations"] += len(lines)
+    ctx.cov["traces_validated_against_impl"] += len(lines)
+    if differ and not failures:
+        c, o, a = first
+        ctx.violation({"kind": "correspondence-broken", "theorem_or_correspondence":
+                       "model/implementation correspondence for C12 (hashable-value build)", "case": c,
+                       "case_readable": describe(c), "impl_output": o, "model_output": a, "n_disagreements": differ},
+                      no_input=True)
+
+
 def run(ctx):
     ctx.assumptions += [
         "values of the payload crates (serde_json, chrono, time, rust_decimal, bigdecimal, uuid, ipnetwork, mac_address) are "
@@ -683,7 +717,7 @@ def run(ctx):
     ]
     return vlib.standard_flow(
         ctx, "fa", gen_cases, batch_oracle=batch_oracle, describe=describe, nontrivial=nontrivial, regen=regen,
-        model_name="c12",
+        model_name="c12", extra=second_configuration,
         rule="every row of the table generated from src/value.rs: i8/u8 exhaustively, i16/u16 exhaustively (thorough) or "
              "strided (quick), boundary and random 32/64-bit integers, f32/f64 bit patterns of every class (zeros, "
              "subnormals, normals, infinities, quiet/signalling NaNs with payloads), chars incl. non-BMP, strings, bytes, "
